@@ -192,8 +192,15 @@ impl LuauRequireMode {
                 } else {
                     relative_require_path
                 }
-            } else {
+            } else if normalized_require_path.has_root() {
                 normalized_require_path
+            } else {
+                // written as is, a relative path would be read as a source name
+                return Err(DarkluaError::custom(format!(
+                    "unable to write the path to `{}` relative to `{}`",
+                    normalized_require_path.display(),
+                    source_path.display()
+                )));
             }
         };
 
